@@ -176,9 +176,9 @@ def tweak_decl(rng, cls, vg):
         cls["fields"].append([free[0], again if rng.random() < 0.6 else {"k": "seqOf", "item": again}])
         if rng.random() < 0.5:
             cls["required"] = sorted(cls["required"] + [free[0]])
-    # two different classes under one __name__
-    if len(nested) >= 2 and rng.random() < 0.25:
-        nested[1]["name"] = nested[0]["name"]
+    # two different classes under one __name__ (built under distinct names, renamed afterwards)
+    if len(nested) >= 2 and nested[0]["name"] != nested[1]["name"] and rng.random() < 0.5:
+        cls["collide"] = [nested[1]["name"], nested[0]["name"]]
     # defaults on optional scalar fields
     defaults = []
     for n, fd in cls["fields"]:
@@ -356,7 +356,7 @@ def wf_error_key(err):
 
 def run_impl(case):
     ctx = C.make_ctx()
-    decl = case["cls"]
+    decl = {k: v for k, v in case["cls"].items() if k != "collide"}
     try:
         cls = dump.build_class(decl, ctx)
     except Exception as e:
@@ -364,6 +364,10 @@ def run_impl(case):
     back = dump.normalize_decl(dump.dump_class(cls, ctx))
     if back != dump.normalize_decl(decl):
         return {"abstraction_mismatch": {"dumped": back, "declared": dump.normalize_decl(decl)}}
+    if case["cls"].get("collide"):
+        old, new = case["cls"]["collide"]
+        if old in ctx.classes:
+            ctx.classes[old].__name__ = new
     res = {"cls_actual": C.fix_accepts(dump.dump_class(cls, ctx, order="definition"))}
     names = [n for n, _ in decl["fields"]]
     collapsed = len(names) == 1 and set(decl["required"]) == set(names) and decl.get("addl", True) is False
@@ -426,7 +430,12 @@ def run_impl(case):
         r = {"x": C.rename_inline(dump.dump_value(x, ctx), ctx)}
         try:
             doc = Serializer(x).serialize(compact=True) if collapsed else Serializer(x).serialize()
-            json.dumps(doc)
+            try:
+                json.dumps(doc)
+            except Exception as e:          # not pure JSON: C05's business
+                r["ser_notjson"] = str(e)[:200]
+                insts.append(r)
+                continue
             r["doc"] = C.rename_inline(dump.dump_value(doc, ctx), ctx)
             doc_strings(doc, strings)
             if validator is not None:
@@ -659,7 +668,7 @@ def correspondence(case, impl, model):
         m = next(mi)
         if "doc" in r and "valid" in r and "validImpl" in m and m["validImpl"] != r["valid"]:
             return f"validator verdicts differ on a serialized instance: Lean jsValid={m['validImpl']}, Draft4Validator={r['valid']} ({r.get('error')}); doc " + json.dumps(r["doc"])[:300]
-        if scope and not impl.get("collapsed"):
+        if scope and not impl.get("collapsed") and "ser_notjson" not in r:
             ms = m.get("ser")
             if ms and not str(ms.get("err", "")).startswith("outside-model"):
                 if ("ok" in ms) != ("doc" in r):
@@ -698,8 +707,14 @@ def oracle(case, impl, model):
         fails.append(("unresolved-ref", f"$ref does not resolve inside the returned definitions: {impl['bad_refs']}"))
     if model.get("refsFaithful") is False and impl["refs_ok"]:
         fails.append(("definitions-name-collision", "two different classes share a __name__: one definition overwrites the other"))
+    mi = iter(model.get("insts", []))
     for r in impl.get("insts", []):
-        if r.get("valid") is False:
+        m = next(mi) if "x" in r else {}
+        if r.get("valid") is False and model.get("inFrag") and model.get("refsFaithful") and m.get("inRegion"):
+            fails.append(("admits:inside-the-proved-region",
+                          "schema_admits_partial covers this (class, instance), yet the real schema rejects the real "
+                          f"serialization: {r['error']['msg']}; doc " + json.dumps(r["doc"])[:200]))
+        if r.get("valid") is False and model.get("refsFaithful") is not False:
             fails.append((f"admits:{admit_key(r['error'])}",
                           f"serialization of a valid instance is rejected by the schema: {r['error']['msg']} at {'/'.join(r['error']['path'])}; doc " + json.dumps(r["doc"])[:200]))
         if "valid_crash" in r:
@@ -709,7 +724,8 @@ def oracle(case, impl, model):
         for dj, r, ck in zip(case["bdocs"], impl.get("bdocs", []), case.get("bkeys") or [None] * len(case["bdocs"])):
             if r.get("valid") and "err" in r.get("deser", {}):
                 # the field(s) in which the document differs from the image of a valid instance
-                suspects = [names[k] for k in (ck or []) if isinstance(k, str) and k in names]
+                base_ok = bool(impl.get("insts")) and "x" in impl["insts"][0]
+                suspects = [names[k] for k in (ck or []) if isinstance(k, str) and k in names] if base_ok else []
                 if not suspects:
                     f1 = culprit_field(case["cls"], r["deser"].get("msg", ""))
                     suspects = [f1] if f1 is not None else [fd for _, fd in case["cls"]["fields"]]
